@@ -17,6 +17,7 @@ import (
 	"errors"
 	"fmt"
 	"math/rand"
+	"runtime"
 	"sort"
 	"strconv"
 	"strings"
@@ -129,6 +130,7 @@ type world struct {
 	settles    []int64
 	closeStamp int64
 	killed     atomic.Int64
+	kills      map[int64]int64 // connection -> stamp taken just before the driver killed it
 	echoOK     atomic.Int64
 	echoErr    atomic.Int64
 	echoSeq    atomic.Int64
@@ -168,6 +170,16 @@ func (w *world) settleBefore(stamp int64) int64 {
 	return best
 }
 
+// yield lets other goroutines run n times. The publish phase never sleeps in virtual time: while the connection's reader
+// waits for a slow consumer it holds subs' RWMutex, a Receive that is ending waits for that mutex, a goroutine waiting
+// for a mutex is not durably blocked, so the bubble's clock stands still until the consumer moves on - which it does
+// when the publishers make progress, not when time passes.
+func yield(n int) {
+	for i := 0; i < n; i++ {
+		runtime.Gosched()
+	}
+}
+
 func isShard(ch string) bool { return strings.HasPrefix(ch, "sh") || strings.HasPrefix(ch, "smk") }
 
 func (w *world) publish(ch string) {
@@ -197,6 +209,22 @@ func (w *world) stall(n int) {
 	}
 	w.pubMu.Unlock()
 	w.stalls.Add(1)
+}
+
+func (w *world) kill(conn int64) {
+	st := mon.Stamp()
+	w.mu.Lock()
+	w.kills[conn] = st
+	w.mu.Unlock()
+	w.killed.Store(st)
+	w.s.Kill(conn)
+}
+
+// lostAt is the stamp at which the driver began to kill the connection (0: it did not).
+func (w *world) lostAt(conn int64) int64 {
+	w.mu.Lock()
+	defer w.mu.Unlock()
+	return w.kills[conn]
 }
 
 func (w *world) setPhase(active bool) {
@@ -427,7 +455,7 @@ func (w *world) publishPhase(round int, rng *rand.Rand, hooks *recv, dedRecvClie
 			for i := 0; i < per; i++ {
 				w.publish(w.pickTarget(prng))
 				if prng.Intn(4) == 0 {
-					time.Sleep(time.Duration(1+prng.Intn(300)) * time.Microsecond)
+					yield(1 + prng.Intn(60))
 				}
 			}
 		}()
@@ -485,7 +513,7 @@ func (w *world) publishPhase(round int, rng *rand.Rand, hooks *recv, dedRecvClie
 	go func() {
 		defer wg.Done()
 		for _, a := range acts {
-			time.Sleep(time.Duration(50+a.n*7) * time.Microsecond)
+			yield(20 + a.n*3)
 			switch a.what {
 			case "unsub":
 				w.client.Do(w.ctx, unsubscribeCmd(w.client, a.kind, a.chans))
@@ -546,8 +574,7 @@ func (w *world) publishPhase(round int, rng *rand.Rand, hooks *recv, dedRecvClie
 					victim = connOfMarker(w.s.Log(), l[a.n%len(l)].marker)
 				}
 				if victim != 0 {
-					w.killed.Store(mon.Stamp())
-					w.s.Kill(victim)
+					w.kill(victim)
 				}
 			}
 		}
@@ -574,7 +601,7 @@ func runScenario(run *mon.Run, sc scen) (w *world) {
 		run.Inconclusive("client setup failed: " + err.Error())
 		return nil
 	}
-	w = &world{run: run, sc: sc, s: s, client: client, ctx: context.Background(), pubN: map[string]int{}}
+	w = &world{run: run, sc: sc, s: s, client: client, ctx: context.Background(), pubN: map[string]int{}, kills: map[int64]int64{}}
 	w.pubCond = sync.NewCond(&w.pubMu)
 	w.addTargets(uniChans...)
 	w.addTargets(uniChans...) // weight
@@ -644,7 +671,7 @@ func runScenario(run *mon.Run, sc scen) (w *world) {
 		if rng.Intn(3) == 0 {
 			hooks.endHow = "kill"
 			if c := connOfMarker(s.Log(), hooks.marker); c != 0 {
-				s.Kill(c)
+				w.kill(c)
 			}
 			time.Sleep(300 * time.Millisecond)
 			hooks.release()
@@ -900,8 +927,8 @@ func (w *world) evaluate(st *stats) {
 					bound = sb
 				}
 			}
-			if ct.closeSeq != 0 {
-				if sb := w.settleBefore(ct.closeSeq); sb < bound {
+			if k := w.lostAt(sg.conn); k != 0 {
+				if sb := w.settleBefore(k); sb < bound {
 					bound = sb
 				}
 			}
@@ -975,7 +1002,7 @@ func (w *world) evaluate(st *stats) {
 			causes = append(causes, "close")
 		}
 		for _, sg := range segs {
-			if ct := tr[sg.conn]; ct != nil && ct.closeSeq != 0 && ct.closeSeq < r.retStamp && (w.closeStamp == 0 || ct.closeSeq < w.closeStamp) {
+			if k := w.lostAt(sg.conn); k != 0 && k < r.retStamp {
 				allowed["conn-error"] = true
 				causes = append(causes, "connection-lost")
 			}
@@ -1054,8 +1081,8 @@ func (w *world) evalHooks(r *recv, log []fakeredis.Event, tr map[int64]*connTrut
 		last = p
 	}
 	bound := w.settleBefore(r.endStamp)
-	if ct := tr[conn]; ct != nil && ct.closeSeq != 0 {
-		if sb := w.settleBefore(ct.closeSeq); sb < bound {
+	if k := w.lostAt(conn); k != 0 {
+		if sb := w.settleBefore(k); sb < bound {
 			bound = sb
 		}
 	}
